@@ -21,6 +21,7 @@ import engine
 from engine import Op, set_mode
 
 PROP = "C19"
+FOREIGN_FIRST = True
 QUICK_BOOST = 1
 LEAN_MODULES = ["IsoDT.Props.C19", "IsoDT.Props.C19b"]
 RULE = ("argument vectors built from valid date-times in every notation (ISO basic/extended, reduced, week, "
@@ -548,6 +549,18 @@ def gen_cases(rng, tier, boost):
     for bad in (dict(as_total="x"), dict(calendar="bogus"), dict(max_results="abc")):
         yield Case(["2000"], local_tz=(0, 0), spell_seed=1, **bad)
     yield Case(["R/P1Y/0001-01-01T00Z"], max_results=4, local_tz=(0, 0), spell_seed=3)     # known finding F20 witness
+    # two date-times with the SAME offsets on both sides, month / year units included: each point is shifted on its
+    # own (equal month offsets do not cancel: the months differ in length)
+    for i in range(60 * boost if tier == "quick" else 600 * boost):
+        cal = rng.choice(CALS)
+        m = MODE_OF[cal]
+        offs = [rng.choice(["P1M", "-P1M", "P1Y", "P13M", "P1M1D", "-P1Y", "P2M", "PT12H", "P1D"])
+                for _ in range(rng.choice([1, 1, 2]))]
+        yy = rng.choice([2019, 2020, 2021, 2000, 1900])
+        a = "%04d%02d%02dT00Z" % (yy, rng.choice([1, 2, 3, 12]), rng.choice([15, 28, 1]))
+        b = "%04d%02d%02dT00Z" % (yy, rng.choice([2, 3, 4, 5]), rng.choice([15, 28, 1]))
+        yield Case([a, b], offsets1=list(offs), offsets2=list(offs), calendar=cal, as_total=rng.choice([None, None, "h"]),
+                   local_tz=(0, 0), spell_seed=rng.getrandbits(30))
     # ISO 8601 forms that a lenient strptime would misread through the built-in strptime formats
     for item in ("2004031T204619", "20000228T1234", "2004101T0101", "2004031T204619Z", "1999365T235959", "2000-001T00:00:00",
                  "20000228T12", "2000060T1234", "2000-02-28T12:34", "2000W011T0000", "20001T0101"):
@@ -668,5 +681,7 @@ def normalise(text):
 
 
 def ops():
+    import common
+    common.foreign_configurations()
     import cli2ops
     return [CliOp(), cli2ops.CliEvalOp()]
